@@ -153,6 +153,9 @@ def _is_stack_write(n: ast.AST) -> bool:
                 base = unparse(t.value)
                 if "_stacked" in base and (isinstance(t, ast.Subscript) or base != "self"):
                     return True
+    if isinstance(n, ast.Assign) and len(n.targets) == 1 and unparse(n.targets[0]) == "self._stacked" and \
+            "self._stacked" in unparse(n.value):
+        return True   # the frame is replaced by an edited copy of itself (assign / drop / ...)
     if isinstance(n, ast.Call) and isinstance(n.func, ast.Attribute) and n.func.attr in ("__setitem__", "insert", "update"):
         base = unparse(n.func.value)
         if "_stacked" in base or base in ("self.loc",):
@@ -280,16 +283,27 @@ def rule_r5(ctx) -> List[R.Inst]:
                                 construct=f"{key} {missing}"))
         else:
             insts.append(R.ok("C12.R5", key, file, line, idiom=f"{len(props)} names resolve"))
-    q = MAP + ".stack"
+    stack_defs = [MAP + ".stack"] + sorted(c + ".stack" for c in M.subclasses(MAP) if c != MAP and (c + ".stack") in M.funcs)
+    for q in stack_defs:
+        n0 = len(insts)
+        _stack_insts(M, q, insts)
+        for i in insts[n0:]:
+            i.reach = (MAP + ".stack", q)   # a call on a statically unknown chart resolves to Map.stack
+    return insts
+
+
+def _stack_insts(M, q, insts):
+    """one definition of stack() in the chart hierarchy: most-derived Stacker, lists = the chart's declared slots"""
+    owner = q.rsplit(".", 2)[-2]
     fn = M.fn(q)
     file, line = fn_loc(M, q)
     rets = returns_of(fn.node)
     inst_ok = len(rets) == 1 and isinstance(rets[0].value, ast.Call) and unparse(rets[0].value.func) in (
         "self.Stacker", "type(self).Stacker", "self.__class__.Stacker")
     if inst_ok:
-        insts.append(R.ok("C12.R5", "Map.stack.class", file, rets[0].lineno, idiom="self.Stacker (most derived)"))
+        insts.append(R.ok("C12.R5", f"{owner}.stack.class", file, rets[0].lineno, idiom="self.Stacker (most derived)"))
     else:
-        insts.append(R.viol("C12.R5", "Map.stack.class", file, line,
+        insts.append(R.viol("C12.R5", f"{owner}.stack.class", file, line,
                             "stack() does not instantiate the chart class's own Stacker: game-specific stacked names are lost",
                             construct=unparse(rets[0].value)[:120] if rets else "no return"))
     # selection of lists: all values of self.objs, or an isinstance filter over them
@@ -307,12 +321,11 @@ def rule_r5(ctx) -> List[R.Inst]:
                 good = False
     unfiltered = [lc for lc in comps if not lc.generators[0].ifs]
     if good and unfiltered:
-        insts.append(R.ok("C12.R5", "Map.stack.selection", file, line, idiom="all lists, or isinstance(list, include_types)"))
+        insts.append(R.ok("C12.R5", f"{owner}.stack.selection", file, line, idiom="all lists, or isinstance(list, include_types)"))
     else:
-        insts.append(R.viol("C12.R5", "Map.stack.selection", file, line,
+        insts.append(R.viol("C12.R5", f"{owner}.stack.selection", file, line,
                             "the lists handed to the Stacker are not (all lists | lists of the requested types) in slot order",
                             construct="; ".join(unparse(c)[:80] for c in comps)))
-    return insts
 
 
 # --------------------------------------------------------------------------- R6
@@ -395,6 +408,51 @@ def rule_r7(ctx) -> List[R.Inst]:
                    f"write-back also modifies {extra}", construct=f"_update Mut = {sorted(s.mut)}")]
 
 
+# --------------------------------------------------------------------------- R8
+def rule_r8(ctx) -> List[R.Inst]:
+    """one stacked frame: every view of it kept on the stacker (a loc indexer, a cached column) stays valid only while
+    `_stacked` is never rebound after construction — either nothing derived from the frame is stored, or the frame is
+    only ever edited in place"""
+    M = ctx.M
+    insts = []
+    for c in sorted(k for k in M.classes if CTL not in k and ST in M.mro(k)):
+        own = [(q, fn) for q, fn in sorted(M.funcs.items()) if fn.cls == c and fn.outer_fn is None]
+        if not own:
+            continue
+        file = M.mods[M.classes[c].mod].rel
+        rebinds, derived = [], []
+        for q, fn in own:
+            for n in walk_no_nested(fn.node):
+                if isinstance(n, ast.Assign) and len(n.targets) == 1 and isinstance(n.targets[0], ast.Attribute) and \
+                        unparse(n.targets[0].value) == "self":
+                    attr = n.targets[0].attr
+                    if attr == "_stacked":
+                        if fn.name != "__init__":
+                            rebinds.append((fn, n))
+                    elif "self._stacked" in unparse(n.value):
+                        derived.append((fn, n, attr))
+        key = short(c) + ".frame-identity"
+        line = M.classes[c].node.lineno
+        if rebinds and derived:
+            fn, n, attr = derived[0]
+            rf, rn = rebinds[0]
+            insts.append(R.viol("C12.R8", key, file, n.lineno,
+                                f"'{attr}' is built once from the stacked frame ({unparse(n.value)[:60]}) but {rf.name} replaces the "
+                                f"frame (line {rn.lineno}): after the first such edit '{attr}' still addresses the old frame, so later "
+                                f"edits through it never reach the lists", construct=f"self.{attr} from _stacked; {rf.name} rebinds _stacked"))
+        else:
+            insts.append(R.ok("C12.R8", key, file, line,
+                              idiom=("frame never rebound after __init__" if not rebinds else "frame rebound, nothing derived from it is kept")))
+    return insts
+
+
+def rule_r9(ctx) -> List[R.Inst]:
+    """re-definitions of decided chart operations (other than stack(), which R5 decides for every definition, and rate(),
+    which the rate model of C13 follows through the super chain) below Map and MapSet"""
+    from .overrides import map_override_insts, MAP_OPS
+    return map_override_insts(ctx, "C12.R9", ops=MAP_OPS - {"stack"})
+
+
 def rule_dep(ctx):
     """obligations inherited from shared code reached through the call graph (sa/props/deps.py)"""
     from .deps import dep_insts
@@ -409,6 +467,8 @@ SPECS = [
     RuleSpec("C12.R5", rule_r5, 8, "M0", "stackable names resolve; stack() uses the most-derived Stacker and the type filter"),
     RuleSpec("C12.R6", rule_r6, 3, "A5", "mapset stack: chart order, row-wise broadcast"),
     RuleSpec("C12.R7", rule_r7, 1, "A3", "write-back writes the stacked lists' frames and nothing else"),
+    RuleSpec("C12.R8", rule_r8, 1, "A8", "views of the stacked frame kept on the stacker stay valid: the frame is not rebound while such a view exists"),
+    RuleSpec("C12.R9", rule_r9, 2, "M0", "chart operations re-defined below Map / MapSet forward to the decided definition"),
     RuleSpec("C12.D", rule_dep, 1, "M0", "rules of the shared code (timing engine, list classes, stacker) that the operations of this property reach"),
 ]
 
